@@ -255,6 +255,23 @@ class C16(PropBase):
                     params.update(extra)
             except Exception:
                 pass
+        if rng.random() < 0.2:
+            # "rejected at construction or set() time; whatever was accepted can be driven": documented-valid values given through
+            # params.set() on the LIVE layer, before the operations (judge-only: the model has no such operation)
+            cur = dict(params)
+            ins = []
+            for k in rng.sample(['default_target_address_type', 'stmin', 'blocksize', 'wftmax', 'tx_padding', 'max_frame_size', 'listen_mode',
+                                 'tx_data_min_length', 'override_receiver_stmin', 'rx_flowcontrol_timeout', 'rx_consecutive_frame_timeout'], rng.choice([1, 2])):
+                v = rng.choice(PARAM_VALS[k])
+                try:
+                    ok = doc_param_verdict(dict(cur, **{k: v})) == 'accept' and not (isinstance(v, int) and abs(v) > 10**12)
+                except Exception:
+                    ok = False
+                if ok:
+                    cur[k] = v
+                    ins.append({'op': 'paramset', 'i': 0, 'key': k, 'value': v})
+            if ins:
+                return {'ops': sc[:1] + ins + sc[1:], 'meta': {'family': 'operable'}, 'no_model': True}
         return {'ops': sc, 'meta': {'family': 'operable'}}
 
     def project(self, op_line, out_line):
@@ -302,6 +319,8 @@ class C16(PropBase):
                     out.append(('operable', 'process() raised %s with an accepted configuration (%s)' % (r.result, lines_in[0][:300])))
                 if r.op == 'send' and r.result.startswith('exc') and r.result not in ('exc ValueError', 'exc BlockingSendTimeout', 'exc BlockingSendFailure'):
                     out.append(('operable', 'send() raised %s' % r.result))
+                if r.op == 'paramset' and r.result.startswith('exc'):
+                    out.append(('operable', 'params.set(%s) of a documented-valid value on the live layer raised %s' % (' '.join(r.toks[2:4]), r.result)))
                 if r.op in ('recv', 'stop_sending', 'stop_receiving', 'reset') and r.result.startswith('exc'):
                     out.append(('operable', '%s raised %s' % (r.op, r.result)))
         return out[:4]
